@@ -76,9 +76,10 @@ Section Orc.
   Variable orc : oracle.
 
   Definition mk_invocation (x : sx) : invocation :=
-    (* (tag pid inp age fs) *)
+    (* (tag pid inp age fs sesc) *)
     let tag := sx_nth 0 x in
     {| i_pid := sx_str (sx_nth 1 x);
+       i_sesc := sx_bool (sx_nth 5 x);
        i_inp := opt_of_sx json_of_sx (sx_nth 2 x);
        i_repr := fun j => sx_str (orc (q "repr" [tag; sx_of_json j]));
        i_configured := res_of_sx sx_bool (orc (q "configured" [tag]));
@@ -141,7 +142,7 @@ Section Orc.
       let i := mk_invocation (a 2%nat) in
       let tag := sx_nth 0 (a 2%nat) in
       Some (sx_of_outcome
-              (sl_main base (i_pid i) (i_repr i) (i_configured i) (i_branch i) (i_changes i) (i_transcript i) (i_pct i)
+              (sl_main base (i_pid i) (i_sesc i) (i_repr i) (i_configured i) (i_branch i) (i_changes i) (i_transcript i) (i_pct i)
                    (i_mcp_local i) (i_mcp_cache i)
                    (fun p => res_of_sx (fun y => z_of_str (sx_str y)) (orc (q "age" [tag; A p])))
                    (fun p => res_of_sx sx_str (orc (q "read" [tag; A p])))
